@@ -66,8 +66,8 @@ for pid, text in ENGINE.items():
         "replay_cmd_template": "./check %s --replay {path}" % pid,
         "engine": "engine",
         "level_claimed": {"category": "model_checking", "text": text, "design_ref": "DESIGN.md section 6 (%s), section 3.1-3.2" % pid},
-        "level_note": "Exhaustive only within the stated TLC bounds (all graphs N<=3, N=2 for the combined/liveness configurations); the binding to the code is by executing the real engine under harness-chosen schedules with virtual build shells and validating each recorded execution with TLC; real shells/inotify are covered by the real-binary leg where present.",
-        "technique": "explicit TLA+ spec (Engine.tla) checked by TLC + TLC trace validation of implementation executions against EngineObs.tla",
+        "level_note": "Exhaustive only within the stated TLC bounds (all graphs N<=3, N=2 for the combined/liveness configurations, capacity 1); the binding to the code is by executing the real engine under harness-chosen schedules (random policies, DFS, TLC-generated behaviours, held phases of incremental::run) with virtual build shells and real service processes, and validating each recorded execution with TLC against the design specification itself (zero drift on the unchanged tree) and against the observable specification; real shells, signals and inotify are covered by the real-binary leg. Trusted: TLC, the hook events (sequence-numbered under one mutex), the projector tools/project.py (renaming only).",
+        "technique": "explicit TLA+ spec (Engine.tla) model-checked by TLC; real engine driven by a schedule-controlling harness; every recorded execution validated by TLC step-by-step against Engine.tla (Trace_Engine.tla) and against the observable predicates (EngineObs.tla); TLC-generated behaviours (Gen_Engine.tla) replayed into the code; real binary traces validated the same way",
     })
 checks.sort(key=lambda c: c["property_id"])
 claimed = {c["property_id"] for c in checks}
